@@ -17,14 +17,22 @@ child is rejected whatever the replay order, the parent value is not touched; `m
 accepted and the parent takes over the child's root and content); a merge is a sequence of `insertNode`/`deleteNode`
 events on the parent (`merge_is_events`), so the collector algebra and `C04_complete_partial` cover rounds with merges.
 
-NOT proved: that after an accepted merge the parent's root resolves in the parent's layered store (`MergeResolves`).
+Publication into the store: `view_resolves` (a trie's own view resolves in its layered store, closed form) and
+`merge_resolves_partial` (after an accepted merge the parent's root resolves in the parent's layered store, under the
+event discipline of the parent's event list); the unconditional statement is the `def MergeResolves`.
 Before fix 8b1f6ed it was false of the code for some replay orders (corpus/C03/fixed_merge_order.ops); `mergeChanges`
 now replays the changes in the order computed by `orderChanges`, which the model contains literally.
 -/
 import Verif.Lemmas.MptStoreEvents
 import Verif.Lemmas.MptStoreTrie
+import Verif.Gen.AppendFacts
+import Verif.Lemmas.LevelStore
+import Verif.Lemmas.MptRound
+import Verif.Lemmas.MergeRound
+import Verif.Lemmas.TrieRun
+import Verif.Lemmas.OrderChanges
 namespace Verif.Props.C03
-open Verif.Mpt Verif.MptStore
+open Verif.Mpt Verif.MptStore Verif.MptStore.Collector
 
 /-- A trie's content after `Insert` is the structural trie's `insert` of its content (C01 applies to it). -/
 theorem trie_insert_tree (H : Bytes → Bytes) (t : Trie) (p : List Nib) (b : Bytes) :
@@ -46,9 +54,11 @@ theorem trie_delete_tree (H : Bytes → Bytes) (t : Trie) (p : List Nib) :
     rw [← h]
     cases r <;> simp
 
-/-- the events a merge replays on the parent -/
-def mergeEvents (changes : List (Change Ref)) (deletes : List Ref) : List Event :=
-  changes.map (fun c => Event.put c.old c.new) ++ deletes.map Event.del
+/-- **No append onto a node's slice**: in the regenerated table of every `append(` of merkle_patricia_trie.go and
+    mpt_node.go (go/extract) no site grows a slice that is a field of a node or an alias of one, and every site is
+    classified.  This is the syntactic side of FRAME: the defect fixed by 736e702 (`append(nodeImpl.Path, …)` writing
+    into a buffer shared with a node pending in the parent's collector) makes this obligation fail. -/
+theorem no_node_field_append : Verif.Gen.AppendFacts.noNodeFieldAppend = true := by decide
 
 /-- Merging a child whose root equals the parent's is a no-op. -/
 theorem merge_noop (H : Bytes → Bytes) (p c : Trie) (changes : List (Change Ref)) (h : p.root = c.root) :
@@ -123,10 +133,151 @@ example :
     · simp [p2, p, c, Trie.open, Verif.MptStore.Trie.insert, Trie.applyEvents, insertE, Trie.applyEvent, Trie.insertNode, Collector.addChange, Verif.Mpt.root, key]
     · simp [p2, p, c, Trie.open, Verif.MptStore.Trie.insert, Verif.Mpt.root, key, insertE, le64]
 
+/-- **A trie's view resolves in its layered store** (closed form for a sequence of own inserts/deletes): a trie opened
+    with an empty level over stores `below` in which its start tree resolves, after any round of its own operations,
+    reads its current tree completely through (own level, then `below`).  The event discipline is proved
+    (Lemmas/EventDisc, EventKeys); assumed: canonical start tree and key injectivity on the references involved. -/
+theorem view_resolves (H : Bytes → Bytes) (below : Bytes → Option Bytes) (t0 t : Node) (b0 : Trie) (v : Nat) (es : List Event)
+    (hfresh : b0.cc.changes = [] ∧ b0.cc.deletes = []) (hcur : b0.db.current = [])
+    (h0 : Resolves H below t0 []) (hw : WF t0) (hr : RoundEvents v t0 es t)
+    (hU : KeyInjOn H (fun r => r ∈ refs t0 [] ∨ r ∈ eventRefs es)) :
+    Resolves H (levelGet (b0.applyEvents H es) below) t [] := by
+  obtain ⟨hd, hc, _⟩ := round_discipline H hr hw hU
+  obtain ⟨_, hcr, _⟩ := round_ok hr hw (fun r => r ∈ refs t0 []) (fun _ h => h)
+  have hsub : ∀ r ∈ refs t [], r ∈ refs t0 [] ∨ r ∈ eventRefs es := fun r h => liveRunR_sub es _ r (hcr r h)
+  apply level_resolves_partial H below t0 t b0 es hfresh hcur h0 hd hc
+  intro a b ha hb hk
+  have haU : a ∈ refs t0 [] ∨ a ∈ eventRefs es := by
+    rcases ha with ha | ha | ha
+    · exact Or.inl ha
+    · exact hsub a ha
+    · exact Or.inr ha
+  have hbU : b ∈ refs t0 [] ∨ b ∈ eventRefs es := by
+    rcases hb with hb | hb | hb
+    · exact Or.inl hb
+    · exact hsub b hb
+    · exact Or.inr hb
+  rw [hU a b haU hbU hk]
+
+/-- **Merge publishes into the parent's store** (partial: under the event discipline for the parent's whole event
+    list).  The parent `p0.applyEvents esP` (opened with an empty level over `below`, where its start tree `t0`
+    resolves) accepts the up-to-date child `c`; if the parent's events so far followed by the merge's events
+    `mergeEvents (orderChanges changes) deletes` obey the discipline w.r.t. `t0` and cover the child's tree, then the
+    parent's new root resolves in the parent's layered store (own level, then `below`). -/
+theorem merge_resolves_partial (H : Bytes → Bytes) (below : Bytes → Option Bytes) (t0 : Node) (p0 c : Trie)
+    (esP : List Event) (changes : List (Change Ref))
+    (hfresh : p0.cc.changes = [] ∧ p0.cc.deletes = []) (hcur : p0.db.current = [])
+    (h0 : Resolves H below t0 [])
+    (hup : (p0.applyEvents H esP).root = c.cc.startRoot) (hne : (p0.applyEvents H esP).root ≠ c.root)
+    (hdisc : Disc (Ref.key H) (fun x => x ∈ (refs t0 []).map (Ref.key H))
+      (callsOf H (esP ++ mergeEvents (orderChanges H changes) c.cc.getDeletes)))
+    (hcov : ∀ r ∈ refs c.tree [], Collector.liveRun (Ref.key H) (fun x => x ∈ (refs t0 []).map (Ref.key H))
+      (callsOf H (esP ++ mergeEvents (orderChanges H changes) c.cc.getDeletes)) (r.key H))
+    (hf : Faithful H (fun r => r ∈ refs t0 [] ∨ r ∈ refs c.tree [] ∨
+      r ∈ eventRefs (esP ++ mergeEvents (orderChanges H changes) c.cc.getDeletes))) :
+    ∃ p', mergeMPTChangesOrd H (p0.applyEvents H esP) c changes = .ok p' ∧
+      Resolves H (levelGet p' below) p'.tree [] := by
+  obtain ⟨p', hm, _, htree, _, _, hdb⟩ := merge_fresh H (p0.applyEvents H esP) c changes hup hne
+  refine ⟨p', hm, ?_⟩
+  have happ : (p0.applyEvents H esP).applyEvents H (mergeEvents (orderChanges H changes) c.cc.getDeletes)
+      = p0.applyEvents H (esP ++ mergeEvents (orderChanges H changes) c.cc.getDeletes) := by
+    simp [Trie.applyEvents, List.foldl_append]
+  have hlevel : levelGet p' below = levelGet (p0.applyEvents H (esP ++ mergeEvents (orderChanges H changes) c.cc.getDeletes)) below := by
+    funext k
+    simp only [levelGet, hdb, happ]
+  rw [hlevel, htree]
+  exact level_resolves_partial H below t0 c.tree p0 _ hfresh hcur h0 hdisc hcov hf
+
+/-- **Merge publishes into the parent's store — one merged transaction** (closed form of `MergeResolves` for a parent
+    that executed own operations `esP` and accepts a child that executed own operations `esC` on the parent's tree):
+    the parent's new root resolves in the parent's layered store.  Proved discipline for own operations and for the
+    replay; assumed: canonical resolvable start tree, key injectivity, `orderChanges` not stuck (`orderStuck = false`). -/
+theorem merge_resolves_one_child (H : Bytes → Bytes) (below : Bytes → Option Bytes) (t0 t1 t2 : Node) (p0 c0 : Trie)
+    (v : Nat) (esP esC : List Event)
+    (hfresh : p0.cc.changes = [] ∧ p0.cc.deletes = []) (hcur : p0.db.current = [])
+    (hfreshC : c0.cc.changes = [] ∧ c0.cc.deletes = [])
+    (h0 : Resolves H below t0 []) (hw : WF t0)
+    (hP : RoundEvents v t0 esP t1) (hC : RoundEvents v t1 esC t2)
+    (hctree : (c0.applyEvents H esC).tree = t2)
+    (hup : (p0.applyEvents H esP).root = (c0.applyEvents H esC).cc.startRoot)
+    (hne : (p0.applyEvents H esP).root ≠ (c0.applyEvents H esC).root)
+    (hstuck : orderStuck H (c0.applyEvents H esC).cc.getChanges = false)
+    (hU : KeyInjOn H (fun r => r ∈ refs t0 [] ∨ r ∈ eventRefs esP ∨ r ∈ eventRefs esC)) :
+    ∃ p', mergeMPTChanges H (p0.applyEvents H esP) (c0.applyEvents H esC) = .ok p' ∧
+      Resolves H (levelGet p' below) p'.tree [] := by
+  have hgood := orderChanges_good H _ hstuck
+  obtain ⟨hd, hc, hsubE⟩ := one_merge_discipline H hP hC hw c0 hfreshC _ (orderChanges_perm H _) hgood hU
+  obtain ⟨_, hcrP, hw1⟩ := round_ok hP hw (fun r => r ∈ refs t0 []) (fun _ h => h)
+  obtain ⟨_, hcrC, _⟩ := round_ok hC hw1 (fun r => r ∈ refs t1 []) (fun _ h => h)
+  -- `mergeChanges` orders the changes itself; ordering an ordered list again is what the model does
+  have hin : ∀ r, (r ∈ refs t0 [] ∨ r ∈ refs t2 [] ∨ r ∈ eventRefs (esP ++ mergeEvents (orderChanges H
+      (c0.applyEvents H esC).cc.getChanges) (c0.applyEvents H esC).cc.getDeletes)) →
+      (r ∈ refs t0 [] ∨ r ∈ eventRefs esP ∨ r ∈ eventRefs esC) := by
+    intro r hr
+    rcases hr with hr | hr | hr
+    · exact Or.inl hr
+    · rcases liveRunR_sub esC _ r (hcrC r hr) with h | h
+      · rcases liveRunR_sub esP _ r (hcrP r h) with h | h
+        · exact Or.inl h
+        · exact Or.inr (Or.inl h)
+      · exact Or.inr (Or.inr h)
+    · exact Or.inr (hsubE r hr)
+  have := merge_resolves_partial H below t0 p0 (c0.applyEvents H esC) esP (c0.applyEvents H esC).cc.getChanges
+    hfresh hcur h0 hup hne (by rw [hctree] at *; exact hd) (by rw [hctree]; exact hc)
+    (by rw [hctree]; intro a b ha hb hk; rw [hU a b (hin a ha) (hin b hb) hk])
+  simpa [mergeMPTChanges] using this
+
+/-- **Publication into the layered store — any run of a trie** (own operations and merges of children in any number and
+    order, children themselves with nested merged children: `TrieRun`): after the run the trie's tree resolves in its
+    layered store (own level, then `below`).  Since an accepted merge leaves the parent with exactly the store and
+    collector of `p.applyEvents (mergeEvents (orderChanges changes) deletes)` (`merge_fresh`), this is `MergeResolves` for
+    every parent state reachable by such runs.  Discipline proved; assumed: canonical resolvable start tree, key
+    injectivity on the run's references, `orderChanges` never stuck (part of `TrieRun`). -/
+theorem run_resolves (H : Bytes → Bytes) (U : Ref → Prop) (below : Bytes → Option Bytes) (t0 t : Node) (p0 : Trie)
+    (v : Nat) (es : List Event)
+    (hfresh : p0.cc.changes = [] ∧ p0.cc.deletes = []) (hcur : p0.db.current = [])
+    (h0 : Resolves H below t0 []) (hw : WF t0) (hUt : ∀ r ∈ refs t0 [], U r)
+    (hrun : TrieRun H U v t0 es t) (hU : KeyInjOn H U) :
+    Resolves H (levelGet (p0.applyEvents H es) below) t [] := by
+  obtain ⟨hd, hc, _, hE, hUt'⟩ := trieRun_discipline H U hU hrun hw hUt (fun x => x ∈ (refs t0 []).map (Ref.key H))
+    (fun r hr => List.mem_map.mpr ⟨r, hr, rfl⟩)
+    (by intro x hx; obtain ⟨r, hr, hk⟩ := List.mem_map.mp hx; exact ⟨r, hUt r hr, hk⟩)
+  apply level_resolves_partial H below t0 t p0 es hfresh hcur h0 hd hc
+  intro a b ha hb hk
+  have hin : ∀ r, (r ∈ refs t0 [] ∨ r ∈ refs t [] ∨ r ∈ eventRefs es) → U r := by
+    intro r hr
+    rcases hr with hr | hr | hr
+    · exact hUt r hr
+    · exact hUt' r hr
+    · exact hE r hr
+  rw [hU a b (hin a ha) (hin b hb) hk]
+
+/-- non-vacuity of `merge_resolves_one_child` (and of `merge_resolves_partial`, `view_resolves` through it): the parent
+    did nothing itself, one child inserted a key; after the merge the parent reads the leaf from its own level -/
+example : ∃ p', mergeMPTChanges id ((Trie.open [] .empty 1).applyEvents id [])
+      (({ root := root id (.leaf 1 [3] [65]), tree := .leaf 1 [3] [65], version := 1, cc := { startRoot := [] } } : Trie).applyEvents id
+        ((insertE 1 [65] .empty [] [3]).2 ++ [])) = .ok p' ∧
+    Resolves id (levelGet p' (fun _ => none)) p'.tree [] := by
+  have hC : RoundEvents 1 .empty ((insertE 1 [65] .empty [] [3]).2 ++ []) (.leaf 1 [3] [65]) := by
+    apply RoundEvents.ins _ _ _ _ _ (by simp)
+    have h1 : (insertE 1 [65] .empty [] [3]).1 = .leaf 1 [3] [65] := by simp [insertE]
+    rw [h1]; exact RoundEvents.nil _
+  apply merge_resolves_one_child id (fun _ => none) .empty .empty (.leaf 1 [3] [65]) (Trie.open [] .empty 1) _ 1
+    [] _ ⟨rfl, rfl⟩ rfl ⟨rfl, rfl⟩ (by intro r h; simp [refs] at h) (Or.inl rfl) (RoundEvents.nil _) hC
+  · simp [Trie.applyEvents, insertE, Trie.applyEvent, Trie.insertNode]
+  · simp [Trie.applyEvents, insertE, Trie.applyEvent, Trie.insertNode, Trie.open, Collector.addChange]
+  · simp [Trie.applyEvents, insertE, Trie.applyEvent, Trie.insertNode, Trie.open, root, key]
+  · decide
+  · intro a b ha hb _
+    simp [refs, insertE, eventRefs] at ha hb
+    rw [ha, hb]
+
 /-- The full publication statement: after an accepted merge of a child whose own view resolved, the parent's new root
     resolves in the parent's layered store (`get` = read-through of the parent's level and everything below it).
-    NOT proved.  (Without `orderChanges` it is false: corpus/C03/fixed_merge_order.ops, the parent's store lost a live
-    node when a re-creation was replayed before the replacement of the same key.) -/
+    Proved as `merge_resolves_partial` under the event discipline of the parent's whole event list (own operations and
+    merge replays); the discipline itself is proved for a trie's own operations (`view_resolves`), not yet for the
+    replay of a child's collector.  (Without `orderChanges` it is false: corpus/C03/fixed_merge_order.ops, the parent's
+    store lost a live node when a re-creation was replayed before the replacement of the same key.) -/
 def MergeResolves : Prop :=
   ∀ (H : Bytes → Bytes) (below : Bytes → Option Bytes) (p c p' : Trie) (changes : List (Change Ref)),
     changes.Perm c.cc.getChanges →
